@@ -18,7 +18,7 @@ EXPLANATION = (
     "MatchedArg::check_explicit returns false first for non-explicit sources. R6.7 one default: in Parser::add_default_value the first matching conditional default ends the function (neither the "
     "next condition nor the plain default is reachable after a match, with or without a value), the conditional value comes from "
     "the matching triple and the plain value from Arg::default_vals, and a condition on an argument that is not in the matches "
-    "is false. R6.8 command-line values are never left pending when parse gives up: every error that Parser::parse constructs inside its token loop (unknown argument, no_equals, too many values, did-you-mean, invalid UTF-8, match_arg_error) is preceded on every path from the loop head by resolve_pending — with ignore_errors the env/default phases run after such an error and would otherwise treat the pending argument as absent (all sites do this today; the rule is the confirmed majority pattern). NOT decided: the combination at run time, globals."
+    "is false. R6.8 command-line values are never left pending when parse gives up: every error that Parser::parse constructs inside its token loop (unknown argument, no_equals, too many values, did-you-mean, invalid UTF-8, match_arg_error) is preceded on every path from the loop head by resolve_pending — with ignore_errors the env/default phases run after such an error and would otherwise treat the pending argument as absent (all sites do this today; the rule is the confirmed majority pattern). R6.9 Arg::_build assigns the action's implicit default / missing-value default whenever none was given, under no other condition. NOT decided: the combination at run time, globals."
 )
 TRUSTED = ["rustc MIR", "clapfacts", "lib/vset.py", "derived Ord follows declaration order"]
 ASSUMPTIONS = ["Arg::env reads the environment at definition time (outside this property)"]
@@ -226,3 +226,14 @@ def run(ctx):
             res.check(not avoid, "R6.8", "pending-flushed-before-error|%s" % m.group(1), "%s bb%d" % (pp.where(), i), "resolve_pending on every path from the loop head to this error",
                       "Parser::parse returns the %s error with values still pending: under ignore_errors the argument that was being filled counts as absent for the env/default phases and its command-line values are lost" % m.group(1))
         res.floor("R6.8", "errors constructed inside the parse loop", nerr, 7)
+
+
+    # ---- R6.9 implicit defaults of flag actions do not depend on anything but the action (in particular not on `required`)
+    ab = fx.body("clap_builder::builder::arg::Arg::_build")
+    for fld, src in (("default_vals", "default_value"), ("default_missing_vals", "default_missing_value")):
+        ws = writes_field(ab, fld)
+        res.floor("R6.9", "implicit %s assignment in Arg::_build" % fld, len(ws), 1)
+        for i, s_ in ws:
+            gl = [g for g in guard_strs(ab, i) if re.match(r"^[TF]:", g)]
+            res.check(gl == ["T:is_empty(self.%s)" % fld] and any(re.match(r"^V1:%s\(self\.action#Some\.0\)$" % src, g) for g in guard_strs(ab, i)), "R6.9", "implicit-default-unconditional|" + fld, "%s bb%d" % (ab.where(), i),
+                      "implicit %s assigned whenever the action has one and none was given" % fld, "Arg::_build assigns the action's implicit %s only under %s: e.g. a required flag whose requirement is waived ends up without its default (value_source None instead of DefaultValue)" % (fld, gl))
